@@ -65,7 +65,10 @@ def run_property(pid: str, tier: str, repo: str | None = None, write=True, quiet
         if not os.environ.get("SV_NO_SELFTEST"):
             from sv import selftest
 
-            rep = selftest.run(pid, prog.repo, [o.key for o in ck.obs if not o.ok])
+            from sv.loader import CONSULTED
+
+            consulted = sorted(prog.modules[m].relpath for m in CONSULTED if m in prog.modules and not prog.modules[m].trusted)
+            rep = selftest.run(pid, prog.repo, [o.key for o in ck.obs if not o.ok], consulted=consulted)
             extra["selftest"] = rep
             extra["selftest_rule"] = (
                 "every committed breaking variant recorded for this property (/verif/seeded) must add a violation on a scratch copy of the "
@@ -73,7 +76,8 @@ def run_property(pid: str, tier: str, repo: str | None = None, write=True, quiet
             )
             out.append(
                 f"[sv] selftest {pid}: variants={rep['variants']} detected={len(rep['detected'])} missed={len(rep['missed'])} "
-                f"silent_ok={rep['silent_ok']} false_alarms={len(rep['false_alarms'])} skipped={len(rep['skipped'])} errors={len(rep['errors'])}"
+                f"silent_ok={rep['silent_ok']} false_alarms={len(rep['false_alarms'])} skipped={len(rep['skipped'])} errors={len(rep['errors'])} "
+                f"unrelated={rep.get('unrelated', 0)} (touch none of the {len(consulted)} source files this property's rules read)"
             )
             for m_ in rep["missed"]:
                 out.append(f"SELFTEST-NOTE: breaking variant {m_} recorded for {pid} is not reported on this tree")
